@@ -12,10 +12,6 @@ Definition ex_tbl (_ : Z) : strategy := ex_batch.
 Definition ex_ops : list wop :=
   [WPlace 0 ex_plain; WPlace 1 ex_batch; WPlace 2 ex_batch; WRemove 0; WLoad 0 ex_plain; WStep 1].
 
-Lemma ex_pos_plain : pos_req (s_req ex_plain).
-Proof. exists (0, RAny), 1. split; [left; reflexivity|lia]. Qed.
-Lemma ex_pos_batch : pos_req (s_req ex_batch).
-Proof. exists (1, RAny), 2. split; [left; reflexivity|lia]. Qed.
 Lemma ex_nn_plain : nonneg_vec (s_req ex_plain).
 Proof. repeat constructor; cbn; lia. Qed.
 Lemma ex_nn_batch : nonneg_vec (s_req ex_batch).
@@ -30,11 +26,11 @@ Proof.
   exists (w_run ex_ops (w_new 0 ex_vec)). split.
   - unfold ex_ops, w_run. cbn [fold_left].
     apply reachS; [apply reachS; [apply reachS; [apply reachS; [apply reachS; [apply reachS; [apply reach0|]|]|]|]|]|].
-    + split; [reflexivity|split; [apply ex_nn_plain|split; [apply ex_pos_plain|discriminate]]].
-    + split; [reflexivity|split; [apply ex_nn_batch|split; [apply ex_pos_batch|reflexivity]]].
-    + split; [reflexivity|split; [apply ex_nn_batch|split; [apply ex_pos_batch|reflexivity]]].
+    + cbn. discriminate.
+    + cbn. reflexivity.
+    + cbn. reflexivity.
     + exact Logic.I.
-    + split; [reflexivity|split; [reflexivity|split; [apply ex_nn_plain|apply ex_pos_plain]]].
+    + split; reflexivity.
     + exact Logic.I.
   - vm_compute. repeat split; discriminate.
 Qed.
@@ -48,11 +44,11 @@ Proof.
   exists (p_run [PPlace 0 [ex_plain] (Some ex_plain) (Some 1); PPlace 1 [ex_batch] None None] (p_new 0 [w_new 0 ex_vec; w_new 1 ex_vec])).
   split; [|split].
   - unfold p_run. cbn [fold_left]. apply preachS; [apply preachS; [apply preach0|]|].
-    + cbn. split; [reflexivity|]. split.
-      * constructor; [|constructor]. split; [apply ex_nn_plain|split; [apply ex_pos_plain|discriminate]].
-      * intros s E. inversion E; subst. split; [apply ex_nn_plain|split; [apply ex_pos_plain|discriminate]].
-    + vm_compute. split; [reflexivity|]. split.
-      * constructor; [|constructor]. split; [apply ex_nn_batch|split; [apply ex_pos_batch|reflexivity]].
+    + cbn. split.
+      * constructor; [|constructor]. unfold strat_wf. discriminate.
+      * intros s E. inversion E; subst. unfold strat_wf. discriminate.
+    + cbn. split.
+      * constructor; [|constructor]. unfold strat_wf. reflexivity.
       * intros s E. discriminate.
   - vm_compute. reflexivity.
   - apply pinv_new.
@@ -61,7 +57,7 @@ Proof.
     + repeat constructor.
 Qed.
 
-(* the copy theorem applies to a ledger with allocations *)
-Example ex_copy : wf_vecb ex_vec = true /\
-  exists R', r_copy (w_res (w_run ex_ops (w_new 0 ex_vec))) = Ok R' /\ r_allocs R' <> [].
-Proof. split; [reflexivity|]. eexists. vm_compute. split; [reflexivity|discriminate]. Qed.
+(* a copy of a ledger with allocations is that ledger *)
+Example ex_copy : exists R', r_copy (w_res (w_run ex_ops (w_new 0 ex_vec))) = Ok R' /\ r_allocs R' <> [] /\
+  R' = w_res (w_run ex_ops (w_new 0 ex_vec)).
+Proof. eexists. vm_compute. split; [reflexivity|split; [discriminate|reflexivity]]. Qed.
